@@ -23,8 +23,9 @@ META = {
                   'the peer has exactly the first n frames of the run without failure followed by an unterminated rest without newline, the line being processed is '
                   'finished, no later line reaches the dispatcher, sendall is never called again whatever the socket would do); the concurrent senders model has the '
                   'same failure (steps fail / skip) and lines_whole, senders_keep_order, replies_in_order_among_events hold for it; the whole-line and peer-gone theorems '
-                  'assume of the dispatcher only DispNoEol (no newline in action and specifier of what it sends, for requests cut from lines), which is proved for the '
-                  'dispatcher model over any node (dispatcher_no_newline, dispatcher_lines_whole); a model of the text of error reports (SECoPError.format on '
+                  'assume of the dispatcher only DispNoEol (no newline in action and specifier of what it sends, for requests cut from lines), reply_action_fits only DispAnswers; '
+                  'both are proved for the dispatcher model over any node (dispatcher_no_newline, dispatch_answers), giving dispatcher_lines_whole and '
+                  'dispatcher_reply_action_fits without any hypothesis on the dispatcher; a model of the text of error reports (SECoPError.format on '
                   'BaseException.__str__, Wire/ErrText) with error_text_usual / error_text_any_args / error_text_unregistered.  The models are tied to '
                   'frappy/protocol/interface/{__init__,handler,tcp}.py and frappy/protocol/dispatcher.py by a correspondence run on the real TCPRequestHandler over a '
                   'scripted socket (stub dispatcher doing anything -- including SECoP errors of 16 classes with 23 shapes of arguments and 0-3 raising methods -- + the '
